@@ -237,6 +237,7 @@ private:
     static const Type* resolved(const Type* ty);
     static const Type* unqualifiedAndResolved(const Type* ty);
     const Type* valueTypeOf(const Type* ty);
+    const Type* enumeratedTypeAsInt(const Type* ty);
 
     const Type* typeOfStringLiteral(StringLiteral::EncodingPrefix encodingSuffix);
 
